@@ -2565,6 +2565,31 @@ class StringKindSuite(HistSuite):
         return out
 
 
+
+class DeserShareSuite(HistSuite):
+    """C14 / C05: a key or string read by a deserializer is shared with an equal copied string that is already in the document; every
+    combination of pool fill level and allocation-failure position around the insertion is enumerated (tiny pools), so that the
+    window 'key slot obtained, value slot refused' and its neighbours are all visited. Observations and allocator log vs the model;
+    the other user of the string must stay intact."""
+    name = "desershare"
+
+    def generate(self, rng, tier):
+        geo = geo_of(self.cfg)
+        cases = []
+        inputs = [("j", b'{"k":1}'), ("j", b'{"x":"k"}'), ("j", b'["k","k"]'), ("j", b'{"k":{"k":"k"}}'), ("m", bytes.fromhex("81a16b01")), ("m", bytes.fromhex("92a16ba16b")), ("m", bytes.fromhex("81a16b81a16ba16b"))]
+        for fill in range(0, 2 * geo[0] + 2):
+            for fk in range(0, 6):
+                for fmt, data in inputs:
+                    for linked in (False, True):
+                        ops = ["reset", "geo %d %d %d %d" % geo[:4], "root 0 0", "toarr 1 0", "add 1 %s 6b" % ("sl 3" if False else ("sjl" if linked else "sc"))]
+                        ops += ["add 1 i %d" % i for i in range(fill)]
+                        ops += ["addv 2 1", "obs 0 1 2"]
+                        if fk:
+                            ops.append("failat 0 %d" % fk)
+                        ops += ["deser%s 2 10 %s" % (fmt, data.hex()), "obs 0 1 2", "obsx 1", "nofail 0", "remi 1 0", "obs 0 1", "hser 0", "cleardoc 0", "ledger"]
+                        cases += [Case(o, exp=None) for o in ops]
+        return cases
+
 class LimitSuite(HistSuite):
     """C19: histories that sit at, one below and one above the slot limit (1-byte slot ids: 255 slots)"""
     name = "limit"
